@@ -110,14 +110,14 @@ for pid in ["C01","C02","C03","C04","C05","C08","C09","C10","C11","C12","C13","C
 
 # --- additions after the seeding rounds (appended to the level texts) --------------------------------------------
 EXTRA_TEXT = {
-    "C01": " Also after failed calls: balance and smart queries through App equal the committed state. Address / registry differences following a rolled-back instantiation are attributed here, too.",
+    "C01": " Also after failed calls: balance and smart queries through App equal the committed state. Address / registry differences following a rolled-back instantiation are attributed here, too. Batches and sibling sub-messages that create a contract and use it at once are part of the histories.",
     "C02": " A rolled-back instantiation leaves no trace in later addresses or in the registry. Chains of 12 to 22 nested sub-messages (innermost failing or not, caught at some level or at none) are part of the histories.",
     "C03": " Chains of 12 to 22 nested sub-messages with a reply plan at every level are part of the histories.",
-    "C06": " Towers of 20 to 48 caches nested in one another and programs of 130 to 220 operations in one layer are part of the workload.",
+    "C06": " Programs contain single gets, partial scans and read / write / read motifs; half of the cases run without the sweep of reads between operations; the base is a user-supplied store that keeps empty values. Towers of 20 to 48 caches nested in one another and programs of 130 to 220 operations in one layer are part of the workload.",
     "C11": " A registry-scale pass stores 66 000 codes (thorough: 70 000) and instantiates hundreds (thorough: 66 000) of contracts: ids consecutive, sampled ids around the byte and two-byte boundaries answer with their own checksum / creator / code, every instance has the derived address, all addresses distinct, every instance keeps its own record.",
     "C04": " Includes event types that already start with wasm- or equal entry-point names and data that is itself an encoded execute / instantiate response.",
-    "C05": " Histories also run on chains built with MockApiBech32 / MockApiBech32m and with respelled addresses (rejected by every codec); signers include non-addresses such as the empty string.",
-    "C07": " Several operations on one held view object (mutable and read-only, incl. redundant writes) are compared read by read; range_keys / range_values are projections of range.",
+    "C05": " Histories also run on chains built with MockApiBech32 / MockApiBech32m and with respelled addresses (rejected by every codec); signers include non-addresses such as the empty string. After set_block / update_block the application's block equals the block that was set (also a lower height).",
+    "C07": " Several operations on one held view object (mutable and read-only, incl. redundant writes) are compared read by read; range_keys / range_values are projections of range. The base is a user-supplied store that keeps empty values, which views hand through.",
     "C08": " Own storage iterated in descending order at entry and after the call's own writes equals the model; writes and removals through App::contract_storage_mut land in that contract's key space only. Some histories run on a chain with a user-written codec for plain case-sensitive addresses whose address generator names contracts Vault, vault, VAULT, vault/, vaul, ... : each is a contract of its own.",
     "C09": " Denominations include near misses of one another (other letter case, a prefix, an extension): each is a denomination of its own. One history in eight runs on a chain with plain case-sensitive addresses (accounts Alice, alice, ALICE, alic, a relay contract Vault next to an account vault).",
     "C14": " Coins in a near miss of the bonded denomination (other letter case, padded, a prefix, an extension) are rejected like any other denomination, although the delegators hold such coins.",
@@ -126,7 +126,7 @@ EXTRA_TEXT = {
     "C13": " Values include long, padded, reserved-looking and multi-line strings.",
     "C17": " Module answers rotate over data / events / both / nothing (reply_on Success and Always must still deliver exactly that answer); execute_multi batches: modules see exactly the prefix up to the first failing message. A smaller matrix (kind x origin x accepting / failing module) also runs on builds of the repository with the feature sets default, cosmwasm_2_0, stargate, staking and staking+stargate+cosmwasm_1_4: every message / query variant that exists in a build reaches its module there.",
     "C18": " Whatever validation accepts it returns unchanged (all upper case and non-zero padding-bit spellings of valid addresses are tried).",
-    "C19": " Staking and bank programs are generated on a thread of their own and compared between a never-used thread, the used worker thread and other processes that receive the programs in a file; transcripts include env.transaction, reply.gas_used and reply.msg_responses.",
+    "C19": " Staking and bank programs are generated on a thread of their own and compared between a never-used thread, the used worker thread and other processes that receive the programs in a file; transcripts include env.transaction, reply.gas_used and reply.msg_responses. Other instances run a contract that panics in execute, query and sudo (caught) before / between the compared runs.",
     "C20": " The wrapper chains also run on builds of the repository with its default and four other reduced feature sets (what a wrapper keeps must not depend on the build's features). Steps given twice (decoy first) equal the chain with the value supplied last; every wrapped entry point's whole response (attributes, event, data, sub-messages with gas limits, plain messages) arrives unchanged; App::default / App::new / custom_app give the documented defaults.",
 }
 for _pid, _t in EXTRA_TEXT.items():
